@@ -27,8 +27,8 @@ func TestMain(m *testing.M) { suite.Main(m) }
 // its own steps sequentially). Quiesce: the harness waits for the bubble to come to rest before it
 // starts the next step; otherwise the next step races with this one.
 type Step struct {
-	Actor   int    `json:"actor"` // 0..Senders-1 = sender actors, Senders = closer actor, -1 = receiver
-	Op      string `json:"op"`    // send | trysend | close | next | rclose | cancel
+	Actor   int    `json:"actor"`         // 0..Senders-1 = sender actors, Senders = closer actor, -1 = receiver
+	Op      string `json:"op"`            // send | trysend | close | next | rclose | cancel
 	Ctx     int    `json:"ctx,omitempty"` // 0 = live, -1 = already cancelled, k>0 = cancellable context k
 	Err     bool   `json:"err,omitempty"` // close with an error
 	Quiesce bool   `json:"q"`
@@ -105,7 +105,7 @@ type opRec struct {
 	call, ret int64 // logical stamps; ret == 0 while pending
 	ok        bool  // trysend result
 	err       error
-	got       int // next result
+	got       int  // next result
 	ctxLive   bool // the call's own context had not ended when the call returned
 }
 
@@ -753,4 +753,102 @@ func runStorm(p StormPlan) (vk.Outcome, error) {
 
 func TestPipeStorm(t *testing.T) {
 	vk.Run(t, suite, "pipe-storm", 200, genStorm, runStorm)
+}
+
+// ---------------------------------------------------------------- calls next to a parked Send, on the real clock
+//
+// "TrySend never blocks" and "Send returns once its context expires" also hold while another Send of
+// the same sender is parked. A violation of that is typically a call stuck on a lock, and a goroutine
+// waiting for a sync.Mutex is something a synctest bubble can neither wait out nor see as a deadlock
+// (the case would hang and count as inconclusive). So this kind uses real goroutines and a real 5 s
+// limit - four orders of magnitude above what these calls take.
+
+type ParkedPlan struct {
+	Buf    int      `json:"buf"`
+	Probes []string `json:"probes"` // trysend | send-timeout | trysend-ended | rclose, run in this order while a Send is parked
+}
+
+func genParked(t *rapid.T) ParkedPlan {
+	p := ParkedPlan{Buf: rapid.SampledFrom([]int{0, 1, 4}).Draw(t, "buf")}
+	p.Probes = rapid.SliceOfN(rapid.SampledFrom([]string{"trysend", "send-timeout", "trysend-ended", "trysend"}), 1, 4).Draw(t, "probes")
+	p.Probes = append(p.Probes, "rclose")
+	return p
+}
+
+func within(limit time.Duration, f func()) bool {
+	done := make(chan struct{})
+	go func() { f(); close(done) }()
+	select {
+	case <-done:
+		return true
+	case <-time.After(limit):
+		return false
+	}
+}
+
+func runParked(p ParkedPlan) (vk.Outcome, error) {
+	var out vk.Outcome
+	const limit = 5 * time.Second
+	bg := context.Background()
+	sender, receiver := stream.Pipe[int](p.Buf)
+	for i := 0; i < p.Buf; i++ { // fill the buffer
+		if ok, err := sender.TrySend(bg, i); !ok || err != nil {
+			return out, vk.Violf("trysend-refused", "TrySend #%d into an empty pipe with buffer %d returned (%v, %v)", i, p.Buf, ok, err)
+		}
+	}
+	parkedErr := make(chan error, 1)
+	go func() { parkedErr <- sender.Send(bg, 999) }() // nobody reads: this one parks
+	time.Sleep(2 * time.Millisecond)
+	ended, cancel := context.WithCancel(bg)
+	cancel()
+	for _, probe := range p.Probes {
+		switch probe {
+		case "trysend":
+			var ok bool
+			var err error
+			if !within(limit, func() { ok, err = sender.TrySend(bg, 1000) }) {
+				return out, vk.Violf("trysend-blocked", "TrySend has not returned after %v while another Send of the same sender is parked (buffer %d full, idle receiver)", limit, p.Buf)
+			}
+			if ok || err != nil {
+				return out, vk.Violf("invalid-result", "TrySend into a full pipe returned (%v, %v)", ok, err)
+			}
+		case "trysend-ended":
+			var err error
+			if !within(limit, func() { _, err = sender.TrySend(ended, 1001) }) {
+				return out, vk.Violf("trysend-blocked", "TrySend with an ended context has not returned after %v while another Send is parked", limit)
+			}
+			if err != context.Canceled {
+				return out, vk.Violf("trysend-expired-ctx", "TrySend with an already cancelled context returned %v", err)
+			}
+		case "send-timeout":
+			ctx, c := context.WithTimeout(bg, 5*time.Millisecond)
+			var err error
+			ok := within(limit, func() { err = sender.Send(ctx, 1002) })
+			c()
+			if !ok {
+				return out, vk.Violf("send-stuck", "Send whose context expired after 5ms has not returned after %v (another Send of the same sender is parked)", limit)
+			}
+			if err != context.DeadlineExceeded {
+				return out, vk.Violf("invalid-result", "Send into a full pipe with an expiring context returned %v", err)
+			}
+		case "rclose":
+			if !within(limit, receiver.Close) {
+				return out, vk.Violf("close-blocked", "the receiver's Close has not returned after %v", limit)
+			}
+			select {
+			case err := <-parkedErr:
+				if err != stream.ErrClosedPipe {
+					return out, vk.Violf("invalid-result", "the parked Send returned %v after the receiver closed", err)
+				}
+			case <-time.After(limit):
+				return out, vk.Violf("send-stuck", "the parked Send has not returned %v after the receiver's Close returned", limit)
+			}
+		}
+	}
+	out.NonTrivial = true
+	return out, nil
+}
+
+func TestPipeParked(t *testing.T) {
+	vk.Run(t, suite, "pipe-parked", 40, genParked, runParked)
 }
